@@ -5,6 +5,7 @@ package main
 
 import (
 	"fmt"
+	"regexp"
 	"go/token"
 	"go/types"
 	"sort"
@@ -44,6 +45,7 @@ type Frame struct {
 	headers    []*ssa.BasicBlock
 	topFrame   *Frame
 	sname      string
+	curBlock   *ssa.BasicBlock
 }
 
 const maxInlineDepth = 8
@@ -312,6 +314,23 @@ func (e *Env) runBlocks(fr *Frame, order []*ssa.BasicBlock, loops map[*ssa.Basic
 type regionRun struct {
 	li         *loopInfo
 	backStates []*State
+	backPhis   [][]Value // per back edge: the values flowing into the header phis
+}
+
+// partialHavoc records, for a loop whose body writes a heap array only at a few
+// loop-invariant references, that set (the array is havocked only there).
+type partialHavoc struct {
+	fr    *Frame
+	li    *loopInfo
+	refs  map[string][]string // heap name -> allowed written refs
+	viol  []string            // obligations to emit: disjunctions ref == w
+	stable []stableLeaf
+}
+
+type stableLeaf struct {
+	phi  *ssa.Phi
+	leaf int
+	term string
 }
 
 func predIndex(b, p *ssa.BasicBlock) int {
@@ -355,48 +374,204 @@ func (e *Env) cutLoop(fr *Frame, order []*ssa.BasicBlock, loops map[*ssa.BasicBl
 	if a := e.autoRangeInv(fr, li, in); a != tTrue {
 		e.oblige("inv-init", "loop"+li.key+":auto-rangeindex", in.pc, a)
 	}
-	// discovery run: which heap arrays does the body write?
-	saveRegs := map[ssa.Value]Value{}
-	for k, v := range fr.regs {
-		saveRegs[k] = v
-	}
-	saveEdge := fr.edge
-	fr.edge = map[[2]int]*State{}
-	saveRets := fr.rets
-	saveDefers := fr.defers
-	e.dry++
-	rr := &regionRun{li: li}
-	saveW, saveA := e.writeLog, e.allocLog
-	e.writeLog, e.allocLog = map[string][]string{}, map[string]bool{}
-	e.runBlocks(fr, order, loops, li.header, in, rr)
-	wlog, alog := e.writeLog, e.allocLog
-	e.writeLog, e.allocLog = saveW, saveA
-	if saveW != nil {
-		for n, rs := range wlog {
-			saveW[n] = append(saveW[n], rs...)
+	// discovery runs (no obligations): which heap arrays does the body write, at which
+	// references, and which phi leaves does it pass through unchanged?
+	counterAtEntry := e.counter
+	var phis []*ssa.Phi
+	for _, ins := range li.header.Instrs {
+		phi, ok := ins.(*ssa.Phi)
+		if !ok {
+			break
 		}
-		for r := range alog {
-			saveA[r] = true
-		}
+		phis = append(phis, phi)
 	}
-	e.dry--
-	fr.rets = saveRets
-	fr.defers = saveDefers
-	fr.edge = saveEdge
+	discover := func(start *State, phiVals map[*ssa.Phi]Value) (*regionRun, map[string][]string, map[string]bool) {
+		saveRegs := map[ssa.Value]Value{}
+		for k, v := range fr.regs {
+			saveRegs[k] = v
+		}
+		for phi, v := range phiVals {
+			fr.regs[phi] = v
+		}
+		saveEdge := fr.edge
+		fr.edge = map[[2]int]*State{}
+		saveRets := fr.rets
+		saveDefers := fr.defers
+		savePhis := fr.loopPhis[li.key]
+		e.bindLoopPhis(fr, li)
+		e.dry++
+		rr := &regionRun{li: li}
+		saveW, saveA := e.writeLog, e.allocLog
+		e.writeLog, e.allocLog = map[string][]string{}, map[string]bool{}
+		e.runBlocks(fr, order, loops, li.header, start, rr)
+		wlog, alog := e.writeLog, e.allocLog
+		e.writeLog, e.allocLog = saveW, saveA
+		if saveW != nil {
+			for n, rs := range wlog {
+				saveW[n] = append(saveW[n], rs...)
+			}
+			for r := range alog {
+				saveA[r] = true
+			}
+		}
+		e.dry--
+		fr.rets = saveRets
+		fr.defers = saveDefers
+		fr.edge = saveEdge
+		fr.regs = saveRegs
+		fr.loopPhis[li.key] = savePhis
+		return rr, wlog, alog
+	}
+	safeFlatten := func(v Value) (out []string) {
+		defer func() {
+			if recover() != nil {
+				out = nil
+			}
+		}()
+		return e.flatten(v)
+	}
+	stableOf := func(rr *regionRun, kept map[*ssa.Phi]Value) map[*ssa.Phi]map[int]bool {
+		res := map[*ssa.Phi]map[int]bool{}
+		for pi, phi := range phis {
+			cur := kept[phi]
+			if _, isF := cur.(*FuncV); isF {
+				continue
+			}
+			if pp, isP := cur.(*Ptr); isP && (pp.Kind == "elem" || len(pp.Path) > 0) {
+				continue
+			}
+			cl := safeFlatten(cur)
+			st := map[int]bool{}
+			for k := range cl {
+				ok := len(rr.backPhis) > 0
+				for _, bp := range rr.backPhis {
+					if pi >= len(bp) {
+						ok = false
+						break
+					}
+					bl := safeFlatten(bp[pi])
+					if bl == nil || k >= len(bl) || bl[k] != cl[k] {
+						ok = false
+					}
+				}
+				if ok {
+					st[k] = true
+				}
+			}
+			res[phi] = st
+		}
+		return res
+	}
+	entryVals := map[*ssa.Phi]Value{}
+	for _, phi := range phis {
+		entryVals[phi] = fr.regs[phi]
+	}
+	rr, wlog, alog := discover(in, entryVals)
 	modified := map[string]bool{}
-	for _, bs := range rr.backStates {
-		for n, t := range bs.heap {
-			if e.heapGet(in, n, e.heapSorts[n]) != t {
-				modified[n] = true
+	noteMods := func(rr *regionRun, base *State) {
+		for _, bs := range rr.backStates {
+			for n, t := range bs.heap {
+				if e.heapGet(base, n, e.heapSorts[n]) != t {
+					modified[n] = true
+				}
 			}
 		}
 	}
-	fr.regs = saveRegs
+	noteMods(rr, in)
+	stable := stableOf(rr, entryVals)
+	// generalise: repeat the discovery from a state where everything that may change is
+	// arbitrary, keeping only the leaves still believed stable, until nothing changes
+	for round := 0; round < 4; round++ {
+		tent := in.clone()
+		for _, n := range sortedKeys(modified) {
+			tent.heap[n] = e.fresh("tv!"+n, e.heapSorts[n])
+		}
+		tent.next = e.fresh("tnext", sInt)
+		e.assume(sx("<=", in.next, tent.next))
+		tvals := map[*ssa.Phi]Value{}
+		for _, phi := range phis {
+			cur := entryVals[phi]
+			nv := e.havocLike(cur, phi.Type(), "tv_"+phi.Name(), tent)
+			if st := stable[phi]; len(st) > 0 {
+				cl, nl := e.flatten(cur), e.flatten(nv)
+				for k := range nl {
+					if st[k] {
+						nl[k] = cl[k]
+					}
+				}
+				nv = e.fromLeaves(phi.Type(), nl)
+			}
+			tvals[phi] = nv
+		}
+		// the tentative state is an arbitrary iteration: the invariants hold in it
+		{
+			saved := map[*ssa.Phi]Value{}
+			for phi, v := range tvals {
+				saved[phi] = fr.regs[phi]
+				fr.regs[phi] = v
+			}
+			savePhis := fr.loopPhis[li.key]
+			e.bindLoopPhis(fr, li)
+			for _, c := range invs {
+				e.assume(mkImp(tent.pc, e.evalInv(fr, c, tent)))
+			}
+			e.assume(mkImp(tent.pc, e.autoRangeInv(fr, li, tent)))
+			for phi, v := range saved {
+				fr.regs[phi] = v
+			}
+			fr.loopPhis[li.key] = savePhis
+		}
+		rr2, wlog2, alog2 := discover(tent, tvals)
+		before := len(modified)
+		noteMods(rr2, tent)
+		st2 := stableOf(rr2, tvals)
+		changed := len(modified) != before
+		for phi, m := range stable {
+			for k := range m {
+				if !st2[phi][k] {
+					delete(m, k)
+					changed = true
+				}
+			}
+		}
+		wlog, alog = wlog2, alog2
+		if !changed {
+			break
+		}
+	}
 	// havoc
 	hv := in.clone()
 	calleeMods := len(wlog["*callee-modifies*"]) > 0
+	ph := &partialHavoc{fr: fr, li: li, refs: map[string][]string{}}
+	invariantTerm := func(t string) bool {
+		// a term is loop-invariant if it mentions no symbol created since the loop was entered
+		for _, m := range symNumRe.FindAllStringSubmatch(t, -1) {
+			if n := atoi(m[1]); n > counterAtEntry {
+				return false
+			}
+		}
+		return true
+	}
 	for _, n := range sortedKeys(modified) {
 		old := e.heapGet(in, n, e.heapSorts[n])
+		// partial havoc: the body writes this array only at a few loop-invariant references
+		refs := dedupe(wlog[n])
+		partial := !calleeMods && len(refs) > 0 && len(refs) <= 4
+		for _, r := range refs {
+			if !invariantTerm(r) {
+				partial = false
+			}
+		}
+		if partial {
+			t := old
+			for _, r := range refs {
+				inner := strings.TrimSuffix(strings.TrimPrefix(e.heapSorts[n], "(Array Int "), ")")
+				t = mkStore(t, r, e.fresh("hv@"+n, inner))
+			}
+			hv.heap[n] = e.maybeNameForce(t, e.heapSorts[n], "hvp")
+			ph.refs[n] = refs
+			continue
+		}
 		hv.heap[n] = e.fresh("hv!"+n, e.heapSorts[n])
 		// if the loop body only writes objects it allocated itself, everything allocated
 		// before the loop is unchanged
@@ -413,13 +588,29 @@ func (e *Env) cutLoop(fr *Frame, order []*ssa.BasicBlock, loops map[*ssa.BasicBl
 	nx := e.fresh("next", sInt)
 	e.assume(sx("<=", in.next, nx))
 	hv.next = nx
-	for _, ins := range li.header.Instrs {
-		phi, ok := ins.(*ssa.Phi)
-		if !ok {
-			break
+	for _, phi := range phis {
+		cur := fr.regs[phi]
+		nv := e.havocLike(cur, phi.Type(), phi.Name()+"_"+phiName(phi), hv)
+		if st := stable[phi]; len(st) > 0 {
+			cl := e.flatten(cur)
+			nl := e.flatten(nv)
+			for k := range nl {
+				if st[k] {
+					nl[k] = cl[k]
+					ph.stable = append(ph.stable, stableLeaf{phi: phi, leaf: k, term: cl[k]})
+				}
+			}
+			nv = e.fromLeaves(phi.Type(), nl)
 		}
-		fr.regs[phi] = e.havocLike(fr.regs[phi], phi.Type(), phi.Name()+"_"+phiName(phi), hv)
+		fr.regs[phi] = nv
 	}
+	var keep []*partialHavoc
+	for _, o := range e.partials {
+		if !(o.fr == fr && o.li == li) {
+			keep = append(keep, o)
+		}
+	}
+	e.partials = append(keep, ph)
 	e.bindLoopPhis(fr, li)
 	if e.dry == 0 {
 		e.noteLoop(fr, li, modified)
@@ -469,11 +660,22 @@ func (e *Env) havocLike(v Value, t types.Type, hint string, st *State) Value {
 }
 
 func (e *Env) execBlock(fr *Frame, b *ssa.BasicBlock, cur *State, loops map[*ssa.BasicBlock]*loopInfo, region *regionRun) {
+	fr.curBlock = b
 	setEdge := func(to *ssa.BasicBlock, s *State) {
 		if isBackEdge(b, to) {
 			li := loops[to]
 			if region != nil && to == region.li.header {
 				region.backStates = append(region.backStates, s)
+				var vals []Value
+				idx := predIndex(to, b)
+				for _, ins := range to.Instrs {
+					phi, ok := ins.(*ssa.Phi)
+					if !ok {
+						break
+					}
+					vals = append(vals, e.get(fr, phi.Edges[idx], s))
+				}
+				region.backPhis = append(region.backPhis, vals)
 				return
 			}
 			if li == nil {
@@ -558,6 +760,23 @@ func (e *Env) loopBack(fr *Frame, li *loopInfo, from *ssa.BasicBlock, s *State) 
 		for _, n := range sortedKeys2(fg) {
 			e.oblige("inv-step", "loop"+li.key+":frame:"+sanitize(n), s.pc, fg[n])
 		}
+	}
+	// automatic invariants introduced by loop cutting: stable phi leaves, partial havoc
+	for _, ph := range e.partials {
+		if ph.li != li || ph.fr != fr {
+			continue
+		}
+		for _, sl := range ph.stable {
+			// fr.regs[phi] is currently bound to the value flowing along this back edge
+			cur := e.flatten(fr.regs[sl.phi])
+			if sl.leaf < len(cur) {
+				e.oblige("inv-step", "loop"+li.key+":auto-stable:"+sl.phi.Name(), s.pc, mkEq(cur[sl.leaf], sl.term))
+			}
+		}
+		for i, v := range ph.viol {
+			e.oblige("inv-step", fmt.Sprintf("loop%s:auto-writes#%d", li.key, i), s.pc, v)
+		}
+		ph.viol = nil
 	}
 	if e.dry == 0 {
 		e.cover("loop"+li.key+"-back", s.pc)
@@ -1299,5 +1518,19 @@ func sortedKeys2(m map[string]string) []string {
 		out = append(out, k)
 	}
 	sort.Strings(out)
+	return out
+}
+
+var symNumRe = regexp.MustCompile(`!([0-9]+)\|`)
+
+func dedupe(xs []string) []string {
+	seen := map[string]bool{}
+	var out []string
+	for _, x := range xs {
+		if !seen[x] {
+			seen[x] = true
+			out = append(out, x)
+		}
+	}
 	return out
 }
